@@ -32,22 +32,22 @@ var witnesses = []witness{
 		{Kind: fw.OpRename, Path: "/a", Path2: "/c"},
 		{Kind: fw.OpWrite, Path: "/b", Chunks: []fw.Chunk{ch(5, 0)}, Mtime: 9, Via: true},
 	}},
-	// k=1: a plain upload over a linked name leaves the counter at 2 with one name; the record outlives the last name
-	{"k1-overwrite-bypasses-counter", []fw.Op{
+	// repaired (was k=1): a plain upload over a linked name now decrements the counter; the record goes with the last name
+	{"fixed-overwrite-decrements-counter", []fw.Op{
 		{Kind: fw.OpCreate, Path: "/a", E: file(1, ch(1, 0), ch(2, 1))},
 		{Kind: fw.OpLink, Path: "/a", Path2: "/b", NewId: 1},
 		{Kind: fw.OpCreate, Path: "/b", E: file(3, ch(7, 0))},
 		{Kind: fw.OpUnlink, Path: "/a"},
 	}},
-	// k=2: recursive delete without data deletion removes a name but not its count
-	{"k2-recursive-nodata", []fw.Op{
+	// repaired (was k=2): recursive delete without data deletion now decrements the counters of the removed names
+	{"fixed-recursive-nodata", []fw.Op{
 		{Kind: fw.OpCreate, Path: "/d/a", E: file(1, ch(1, 0), ch(2, 1))},
 		{Kind: fw.OpLink, Path: "/d/a", Path2: "/b", NewId: 1},
 		{Kind: fw.OpDelete, Path: "/d", Rec: true, Data: false},
 		{Kind: fw.OpUnlink, Path: "/b"},
 	}},
-	// k=1 again: a rename onto a linked name
-	{"k1-rename-onto-link", []fw.Op{
+	// repaired (was k=1): a rename onto a linked name decrements its counter
+	{"fixed-rename-onto-link", []fw.Op{
 		{Kind: fw.OpCreate, Path: "/a", E: file(1, ch(1, 0))},
 		{Kind: fw.OpLink, Path: "/a", Path2: "/b", NewId: 1},
 		{Kind: fw.OpCreate, Path: "/c", E: file(2, ch(3, 0))},
@@ -80,7 +80,7 @@ func main() {
 	w := fw.NewWorld()
 	defer w.Close()
 	out.Rule = "case = history from the empty filer; after every op: error class, raw per-name blobs, raw KV records, FindEntry per name. " +
-		"The first cases of shard 0 are the fixed witnesses of the known findings (k=0..2) and a clean two-group sequence; the others are random histories of 4..14 ops over the names " +
+		"The first cases of shard 0 are the fixed witness of the known finding k=0, the witnesses of the two repaired defects (overwrite of a linked name, recursive delete without data) and a clean two-group sequence; the others are random histories of 4..14 ops over the names " +
 		"{/a,/b,/c,/d,/d/a,/d/b} and the link ids 1..6 (a fresh one per link group): create 12%, update 6%, append 6%, delete 8%, rename 14%, link 24%, write 18% (flush or setattr), unlink 12%; " +
 		"names are picked among existing entries 45..92% of the time; no manifests; every 6th case breaks a client assumption in ~15% of its ops (raw link id, used link id, link onto an existing name) " +
 		"and is judged on correspondence only. non-trivial = assumptions hold and a link record existed at some point; distinct = canonical op list"
